@@ -30,12 +30,20 @@ RATES = [8, 16, 1000, 8000, 16000, 44100, 11025, 22050, 48000, 96000]
 
 
 def config(rng, tier):
+    cfg = _config(rng, tier)
+    # 2**18 samples of 4 bytes = exactly 2**20 bytes: kept rare (it is 100x the usual recording)
+    if cfg["nmax"] == 262144 and not (cfg["width"] == 4 and cfg.get("exact_n")):
+        cfg["nmax"] = 4096
+    return cfg
+
+
+def _config(rng, tier):
     deep = tier == "thorough"
     return {
         "width": rng.choice([1, 2, 2, 4]),
         "rate": rng.choice(RATES),
         # size class: mostly the property's <= 400 samples, sometimes past typical buffer/chunk thresholds
-        "nmax": rng.choice([0, 1, 2, 5, 16, 60, 400] * 6 + [1500, 4096, 5000, 8192, 16384, 70000]),
+        "nmax": rng.choice([0, 1, 2, 5, 16, 60, 400] * 6 + [1500, 4096, 5000, 8192, 16384, 70000, 262144]),
         "exact_n": rng.random() < 0.5,
         "offgrid": rng.random() < 0.6,
         "steps": rng.randrange(1, 13 if deep else 7) if rng.random() < 0.85 else rng.randrange(7, 16),
@@ -361,7 +369,7 @@ def generate(run, rng):
             return t, True
         # usually 5-45 % of a sample off; sometimes a hair away from a rounding tie (never ON it:
         # the float error of t*rate is < 1e-11 for these sizes, so 1e-8 is a safe distance)
-        near_tie = 0.5 - rng.choice([1e-6, 1e-7, 1e-8] if n <= 20000 else [1e-6])
+        near_tie = 0.5 - rng.choice([1e-6, 1e-7, 1e-8] if n <= 20000 else ([1e-6] if n <= 70000 else [1e-4]))
         f = rng.choice([-1, 1]) * (rng.uniform(0.05, 0.45) if rng.random() < 0.85 else near_tie)
         if k == 0:
             f = abs(f)
